@@ -105,6 +105,8 @@ func init() {
 
 		"internal/abi.NoEscape": func(fr *frame, a []value) value { return a[0] },
 		"internal/abi.Escape":   func(fr *frame, a []value) value { return a[0] },
+		"internal/stringslite.Clone": func(fr *frame, a []value) value { return a[0] },
+		"strings.Clone":              func(fr *frame, a []value) value { return a[0] },
 		"runtime.KeepAlive":   extNop,
 		"internal/race.Acquire": extNop,
 		"internal/race.Release": extNop,
